@@ -82,6 +82,9 @@ type e2eConfig struct {
 	Args     []string          // additional command-line arguments
 	Env      []string
 	Disabled map[string]bool // protocols (ipfix | nf9 | nf5 | sflow) switched off with <protocol>-enabled: false
+	// ReadyWithout: protocols the caller expects not to run (switched off through sources of its own); readiness
+	// does not wait for them
+	ReadyWithout map[string]bool
 }
 
 // startVflow writes the configuration into dir and starts the collector; a start that fails because a port
@@ -187,8 +190,8 @@ func startVflowOnce(dir string, ports e2ePorts, cfg e2eConfig, race bool) (*vflo
 		// the stats listener comes up concurrently with the four protocol listeners; a protocol reports
 		// its workers only after its UDP socket is bound, so wait for all four
 		if fs, err := p.flowStats(); err == nil && fs.IPFIX != nil && fs.NetflowV9 != nil && fs.NetflowV5 != nil && fs.SFlow != nil &&
-			(fs.IPFIX.Workers > 0 || cfg.Disabled["ipfix"]) && (fs.NetflowV9.Workers > 0 || cfg.Disabled["nf9"]) &&
-			(fs.NetflowV5.Workers > 0 || cfg.Disabled["nf5"]) && (fs.SFlow.Workers > 0 || cfg.Disabled["sflow"]) {
+			(fs.IPFIX.Workers > 0 || cfg.Disabled["ipfix"] || cfg.ReadyWithout["ipfix"]) && (fs.NetflowV9.Workers > 0 || cfg.Disabled["nf9"] || cfg.ReadyWithout["nf9"]) &&
+			(fs.NetflowV5.Workers > 0 || cfg.Disabled["nf5"] || cfg.ReadyWithout["nf5"]) && (fs.SFlow.Workers > 0 || cfg.Disabled["sflow"] || cfg.ReadyWithout["sflow"]) {
 			return p, nil
 		}
 		time.Sleep(30 * time.Millisecond)
